@@ -108,7 +108,8 @@ Theorem c14_source_shape :
    ("dq-cache-key", "concatenation of the map's values, sorted by Name(), compared by index object");
    ("dq-cache-node", "find:entry-with-an-equal-grouping; equal:same-architectures-and-the-same-index-objects-in-the-same-order; fill:appends-an-entry-with-a-copy-of-the-grouping");
    ("dq-cache-hit", "a clone of the stored set");
-   ("dq-cache-miss", "disqualifyDifference of the call's own map, stored under the key")].
+   ("dq-cache-miss", "disqualifyDifference of the call's own map, stored under the key");
+   ("dq-cache-critical-section", "the whole call: Lock, defer Unlock first, no other Unlock")].
 Proof. reflexivity. Qed.
 Print Assumptions c14_source_shape.
 
@@ -266,6 +267,20 @@ Theorem c14_cache_own_grouping : forall hist aa,
   forall o, In o (snd (dq_cache_get (run_calls hist) aa)) <-> In o (dq_objs aa).
 Proof. exact cache_own_grouping. Qed.
 Print Assumptions c14_cache_own_grouping.
+(* concurrent per-architecture resolutions (MultiArch.BuildPackageLists / BuildLayers:
+   one call per architecture at the same time).  Get is ONE critical section
+   (c14_source_shape: dq-cache-critical-section), so an execution of concurrent
+   calls is some ORDER of whole Gets: for every such order and every position in
+   it, the call is handed exactly the members of its own map - no call can see an
+   entry that is not complete.  (Seeded change C14-9 publishes an empty entry
+   before the difference is computed: the translator refuses that shape and the
+   conc stage replays the schedule on the real code.) *)
+Theorem c14_concurrent_calls_serialised : forall calls sched pre aa post,
+  Permutation sched calls -> Forall go_map calls -> coherent calls ->
+  sched = pre ++ aa :: post ->
+  forall o, In o (snd (dq_cache_get (run_calls pre) aa)) <-> In o (dq_objs aa).
+Proof. exact concurrent_calls_serialised. Qed.
+Print Assumptions c14_concurrent_calls_serialised.
 Example c14_cache_example :
   dq_cache_key F2_multi = [0; 1] /\ dq_cache_key F2_single = [0; 1] /\
   same_grouping (grouping_of F2_multi) (grouping_of F2_single) = false /\
